@@ -55,6 +55,8 @@ type gen struct {
 	seq  int
 	elem int
 	id   string // id of the key being generated
+
+	isLo, isHi int64 // value range of the intset being generated
 }
 
 type intClass struct {
@@ -452,6 +454,9 @@ func (g *gen) genKey(t byte) Key {
 		}
 	}
 
+	if kind == KindStream && g.o.MinValueBytes > 0 {
+		e.BlobLZF = false // keep the size promise simple for streams
+	}
 	fam := family(t)
 	switch fam {
 	case "zl":
@@ -522,6 +527,16 @@ func (g *gen) genKey(t byte) Key {
 		focus = g.genHash(&k, fam)
 	case KindStream:
 		focus = g.genStream(&k)
+	}
+	if g.o.MinValueBytes > 0 && kind != KindString && kind != KindStream {
+		// grow with fillers until the real serialisation is long enough
+		for iter := 0; iter < 200; iter++ {
+			_, vb, _ := EncodeValue(k.Value, k.Enc)
+			if len(vb) >= g.o.MinValueBytes {
+				break
+			}
+			g.grow(&k, fam, (g.o.MinValueBytes-len(vb))/4+1)
+		}
 	}
 	parts := append([]string{kind.String(), TypeName(t)}, opts...)
 	parts = append(parts, focus)
@@ -615,9 +630,6 @@ func (g *gen) genElems(fam string, unique bool, e *Encoding, t byte) ([][]byte, 
 	if g.r.Intn(3) == 0 { // one element of another class
 		add(cs[g.r.Intn(len(cs))].gen(g))
 	}
-	for size < g.o.MinValueBytes {
-		add(g.filler(fam))
-	}
 	g.r.Shuffle(len(els), func(i, j int) { els[i], els[j] = els[j], els[i] })
 	return els, c.name
 }
@@ -661,9 +673,7 @@ func (g *gen) genIntset(e *Encoding) ([][]byte, string) {
 			add(int64(g.r.Intn(2000) - 1000))
 		}
 	}
-	for size < g.o.MinValueBytes {
-		add(g.drawInt(c.lo, c.hi))
-	}
+	g.isLo, g.isHi = c.lo, c.hi
 	g.r.Shuffle(len(els), func(i, j int) { els[i], els[j] = els[j], els[i] })
 	return els, c.name
 }
@@ -739,9 +749,6 @@ func (g *gen) genZSet(k *Key, fam string) string {
 	for i := 0; i < n; i++ {
 		add(g.filler(fam), anyScore())
 	}
-	for size < g.o.MinValueBytes {
-		add(g.filler(fam), anyScore())
-	}
 	return focus
 }
 
@@ -784,9 +791,6 @@ func (g *gen) genHash(k *Key, fam string) string {
 	}
 	n := g.r.Intn(5)
 	for i := 0; i < n; i++ {
-		add(g.filler(fam), g.filler(fam))
-	}
-	for size < g.o.MinValueBytes {
 		add(g.filler(fam), g.filler(fam))
 	}
 	g.r.Shuffle(len(k.Value.Hash), func(i, j int) { k.Value.Hash[i], k.Value.Hash[j] = k.Value.Hash[j], k.Value.Hash[i] })
@@ -871,9 +875,13 @@ func (g *gen) genStream(k *Key) string {
 			en.Deleted = true
 		}
 		for _, fv := range en.Fields {
-			size += len(fv[0]) + len(fv[1]) + 4
+			if _, isInt := canonInt(fv[1]); isInt {
+				size += 2
+			} else {
+				size += len(fv[1]) + 2
+			}
 		}
-		size += 8
+		size += 6
 		s.Entries = append(s.Entries, en)
 	}
 	var maxDel StreamID
@@ -965,3 +973,77 @@ func (g *gen) streamVal(c elemClass, focus bool) []byte {
 	}
 	return g.filler("lp")
 }
+
+// grow appends n filler elements (fewer when they collide with existing members).
+func (g *gen) grow(k *Key, fam string, n int) {
+	v := &k.Value
+	used := map[string]bool{}
+	switch v.Kind {
+	case KindSet:
+		for _, m := range v.Set {
+			used[string(m)] = true
+		}
+	case KindZSet:
+		for _, m := range v.ZSet {
+			used[string(m.Member)] = true
+		}
+	case KindHash:
+		for _, p := range v.Hash {
+			used[string(p[0])] = true
+		}
+	}
+	for i := 0; i < n; i++ {
+		var el []byte
+		if fam == "intset" {
+			el = strconv.AppendInt(nil, g.drawInt(g.isLo, g.isHi), 10)
+			if g.r.Intn(2) == 0 {
+				el = strconv.AppendInt(nil, int64(g.r.Intn(60000)-30000), 10)
+			}
+		} else {
+			el = g.filler(fam)
+		}
+		if v.Kind != KindList {
+			if used[string(el)] {
+				continue
+			}
+			used[string(el)] = true
+		}
+		switch v.Kind {
+		case KindList:
+			v.List = append(v.List, el)
+		case KindSet:
+			v.Set = append(v.Set, el)
+		case KindZSet:
+			v.ZSet = append(v.ZSet, ZMember{el, float64(g.r.Intn(2000)-1000) / 4})
+		case KindHash:
+			v.Hash = append(v.Hash, [2][]byte{el, g.filler(fam)})
+		}
+	}
+}
+
+// BoundaryInts lists the integers at and next to every width boundary of the RDB, ziplist, listpack
+// and intset integer encodings (both signs), for directed sweeps.
+func BoundaryInts() []int64 {
+	return []int64{0, 1, 12, 13, -1, 63, 64, 127, 128, -128, -129, 255, 256, 4095, 4096, -4096, -4097, 8191, 8192,
+		32767, 32768, -32768, -32769, 65535, 65536, 8388607, 8388608, -8388608, -8388609, -70000, 16777215, 16777216,
+		math.MaxInt32, math.MaxInt32 + 1, math.MinInt32, math.MinInt32 - 1, math.MaxUint32, math.MaxUint32 + 1,
+		math.MaxInt64 - 1, math.MaxInt64, math.MinInt64, math.MinInt64 + 1}
+}
+
+// BoundaryLens lists the string lengths at and next to every header-width boundary: RDB 6/14/32-bit
+// lengths and ziplist string headers (63/64, 16383/16384), listpack string headers (63/64,
+// 4095/4096) and back-lengths (entry size 127/128 and 16382/16383), ziplist prevlen and zipmap
+// item length (253/254).  Lengths above max are left out.
+func BoundaryLens(max int) []int {
+	var out []int
+	for _, n := range []int{0, 1, 62, 63, 64, 65, 125, 126, 127, 128, 252, 253, 254, 255, 256, 4093, 4094, 4095, 4096, 4097,
+		16376, 16377, 16378, 16379, 16382, 16383, 16384, 16385} {
+		if n <= max {
+			out = append(out, n)
+		}
+	}
+	return out
+}
+
+// NonCanonicalInts are strings that look numeric but must never be integer-encoded.
+func NonCanonicalInts() []string { return append([]string(nil), nonCanon...) }
